@@ -153,6 +153,13 @@ class Task:
         return '<Task in %s>' % P.pformat(self.owner)
 
 
+class Table:
+    """unregistered; multi-line repr whose lines end in blanks"""
+
+    def __repr__(self):
+        return 'Table(\n| id  name  \n| 1   x     \n)'
+
+
 class Holder:
     """unregistered; its __repr__ calls pformat(self.target) - a print nested inside the print that is
     showing the Holder, of a container that is on the outer print's active path. The nested call is
@@ -300,6 +307,10 @@ def build_corpus():
     holder.target = {'a': [1, holder], 'b': (2,)}
     add('holder_target', 'reentrant', holder.target, idfree=True, nested=holder)
     add('holder_in_list', 'reentrant', [holder.target, 3], idfree=True, nested=holder)
+    add('table', 'odd', {'t': Table(), 'more': [Table()]})
+    add('comment_blank_lines', 'odd', [comment(1, 'one\n \ntwo'), trailing_comment([2, 3], 'ends with blanks   ')])
+    add('str_trailing_blanks', 'odd', 'trailing blanks   ' * 8, dict(width=30))
+    add('str_odd_chars', 'odd', ['\u2603 snowman', 'tab\there', 'nul\x00', 'quote\'"both', '\\backslash', '\U0001f600'], dict(width=20))
     task = Task()
     add('task_owner', 'reentrant', task.owner, idfree=False)
     add('task', 'reentrant', {'t': task}, idfree=False)
